@@ -458,6 +458,9 @@ var fragments = []string{
 	"if x:\n    if y:\n        z = 1\nw = 2\n", "def f():\n    x = (1,\n2)\n    return x\n", "x = (1 +\n     2)\n", "x = 1 + \\\n  2\n", "\tx = 1\n", "x = 1;\n", "x = $y\n", "x = `y`\n", "x = 1 ~ 2\n", "x = a ? b\n",
 	"héllo = 1\n", "x = 中文\n", "变量 = \"值\"\n", "x = a€b\n", "x = a\u00a0b\n", "𝒜 = 1\n", "x٣ = 1\n", "x = \"héllo\"\n",
 	"subinclude('//build_defs:x')\n", "go_library(\n    name = \"x\",\n    srcs = glob([\"*.go\"], exclude = [\"*_test.go\"]),\n    visibility = [\"PUBLIC\"],\n    deps = [\n        \":y\",\n        \"//third_party/go:z\",\n    ],\n)\n",
+	"x = f\"{a\"\n", "x = f\"a{b}c{d\"\n", "x = f\"{{a}} {b\"\n", "x = [1, 2 for i in y]\n", "x = [for i in y]\n", "x = {1: 2, 3: 4 for i in y}\n", "x = {for k in y}\n",
+	"x = 1234567890123456789\n", "x = 123456789012345678\n", "x = -123456789012345678\n", "x = -1234567890123456789\n", "f(a = 1, b = 2, a = 3)\n", "f(a = 1)(a = 2)\n",
+	"for x in y:\n    continue\n", "def f():\n    for x in y:\n        pass\n    continue\n", "for x in y:\n    def g():\n        break\n", "x = a not b\n", "x = a not in\n", "pass = 1\n", "None = 1\n", "x.y = 1\n", "x ! 1\n", "x += 1\n", "x -= 1\n",
 	"", "\n", " ", "x", "x ", "x=", "(", ")", "]", "}", "(]", "((((", "\"", "'", "\"\"\"", "r", "f", "r\"", "f'", "\\", "-", "--1", "- 1", "0o", "0oo", "0o8", "!", "!=", "=!", "<>", "a.b.", "a..b", "def", "def f(", "def f():", "def f():\n", "if", "else:\n", "x = [", "x = [1 for", "x = {1:", "lambda", "not", "not not x", "x not", "x is", "x if y", "x if y else",
 }
 
